@@ -1216,10 +1216,18 @@ func runC36(rec *kit.Recorder, shape *pageShape, c c36Case) error {
 		rec.Label("repo:commit-template-fails-at-execute")
 	}
 	anyNT := false
+	var known *kit.Discrepancy
 	for i := range c.Reqs {
 		rq := &c.Reqs[i]
 		p, err := e.fetch(target(rq), "direct")
 		if err != nil {
+			// a recognised known finding does not end the case: the other requests still count
+			if d, ok := err.(*kit.Discrepancy); ok && d.Known != "" {
+				if known == nil {
+					known = d
+				}
+				continue
+			}
 			return err
 		}
 		if p == nil {
@@ -1230,11 +1238,20 @@ func runC36(rec *kit.Recorder, shape *pageShape, c c36Case) error {
 			// spread over the page: first, last, middle
 			l := p.links[[]int{0, len(p.links) - 1, len(p.links) / 2}[j%3]]
 			if _, err := e.fetch(l, "link"); err != nil {
+				if d, ok := err.(*kit.Discrepancy); ok && d.Known != "" {
+					if known == nil {
+						known = d
+					}
+					continue
+				}
 				return err
 			}
 		}
 	}
 	rec.Sample(c, anyNT)
+	if known != nil {
+		return known
+	}
 	return nil
 }
 
